@@ -738,8 +738,8 @@ func (g *c11gen) msgRandom(n int) {
 		fs := e.fields()
 		if r.Intn(3) == 0 {
 			kind = "msg-mut-"
-			for k := 1 + r.Intn(2); k > 0; k-- {
-				pos := r.Intn(6)
+			for k := 1 + r.Intn(2); k > 0 && len(fs) > 0; k-- {
+				pos := r.Intn(len(fs))
 				switch r.Intn(6) {
 				case 0, 1, 2:
 					if fs[pos].ValU256 != nil {
@@ -748,30 +748,28 @@ func (g *c11gen) msgRandom(n int) {
 						fs[pos] = c11bv(g.hexString())
 					}
 				case 3:
+					tg := c11tags[r.Intn(len(c11tags))]
 					if fs[pos].ValU256 != nil {
-						fs[pos].ValU256.Type = c11tags[r.Intn(len(c11tags))]
-					} else {
-						fs[pos].ValByteVec.Type = c11tags[r.Intn(len(c11tags))]
+						fs[pos] = sdk.Val{ValU256: &sdk.ValU256{Type: tg, Value: fs[pos].ValU256.Value}}
+					} else if fs[pos].ValByteVec != nil {
+						fs[pos] = sdk.Val{ValByteVec: &sdk.ValByteVec{Type: tg, Value: fs[pos].ValByteVec.Value}}
 					}
 				case 4:
 					fs[pos] = []sdk.Val{{}, c11bv("07"), c11u("7"), c11i("-7"), c11adr("x"), c11bool(false)}[r.Intn(6)]
 				default:
 					switch r.Intn(3) {
 					case 0:
-						fs = append(fs[:pos], fs[pos+1:]...)
+						fs = append(append([]sdk.Val{}, fs[:pos]...), fs[pos+1:]...)
 					case 1:
 						fs = append(fs, fs[pos])
 					default:
 						q := r.Intn(len(fs))
 						fs[pos], fs[q] = fs[q], fs[pos]
 					}
-					if len(fs) == 0 {
-						fs = nil
-					}
 				}
-				if len(fs) < 6 {
-					break
-				}
+			}
+			if len(fs) == 0 {
+				fs = nil
 			}
 		}
 		g.msg(kind, fs, g.txid(), g.timestamp())
